@@ -402,6 +402,25 @@ class Gen:
       s1.begin, s1.end, s2.begin, s2.end = Fr(1), Fr(2), Fr(4), Fr(5)
       a.children = [s1, AbsEl("Br", id=self.eid()), s2]
       self.classes.add("p-outlives-spans-with-br")
+    elif rng.random() < 0.08:
+      # pretty-printed paragraph that is active longer than its spans: between and around the spans only inter-element white
+      # space (anonymous spans that collapse to nothing): while no span is active the paragraph has no content and is pruned,
+      # and with it a whenActive region
+      a.begin, a.end = Fr(1), Fr(10)
+      a.space = None
+      a.styles.pop("Display", None)
+      a.anims = [x for x in a.anims if x[0] != "Display"]
+      s1, s2 = self.span(timed=False), self.span(timed=False)
+      s1.begin, s1.end, s2.begin, s2.end = Fr(1), Fr(2), Fr(4), Fr(5)
+      for sp in (s1, s2):
+        sp.space = None
+
+      def ws():
+        w = AbsEl("Span", id=self.eid())
+        w.children = [AbsEl("Text", text=rng.choice(["\n    ", " ", "\n", "\t\n  "]))]
+        return w
+      a.children = [ws(), s1, ws(), s2, ws()]
+      self.classes.add("p-outlives-spans-white-space-only")
     return a
 
   def div(self, depth=0):
